@@ -205,6 +205,8 @@ def execute(case: dict) -> dict:
                     expect_body = None
                 if rq.get("chunked") and body_kind not in ("none",):
                     kwargs["chunked"] = True
+                elif rq.get("chunked_false") and body_kind not in ("none",):
+                    kwargs["chunked"] = False  # explicit: length-delimited whenever the size is known
                 if rq.get("compress") and body_kind not in ("none", "form", "multipart"):
                     kwargs["compress"] = rq["compress"]
                 if rq.get("expect100") and body_kind != "none":
@@ -401,6 +403,7 @@ def cases(draw):
         rq["expect100"] = False  # Expect is an HTTP/1.1 mechanism
         if body_kind == "agen":
             rq["body"] = "bytes"
+    rq["chunked_false"] = (not rq["chunked"]) and draw(st.integers(0, 3)) == 0
     if rq["chunked"] and rq["compress"]:
         pass
     status = draw(st.sampled_from([200, 200, 200, 201, 204, 206, 301, 304, 400, 404, 500]))
